@@ -634,12 +634,17 @@ func (f *Frame) applyGhostSets(fc *FuncContract, env *SpecEnv, st *State) {
 			g.resolutionFailure(f, fmt.Sprintf("ghostset %s: %v", gs.Name, err))
 			continue
 		}
-		gpkg, gname := env.pkgPath(), gs.Name
+		lhs, idxText := gs.Name, ""
+		if i := strings.Index(lhs, "["); i >= 0 && strings.HasSuffix(lhs, "]") {
+			// ghost map update: g[k] := e (all right-hand sides and indices read the same state)
+			lhs, idxText = strings.TrimSpace(gs.Name[:i]), gs.Name[i+1:len(gs.Name)-1]
+		}
+		gpkg, gname := env.pkgPath(), lhs
 		genv := env
-		if i := strings.Index(gs.Name, "."); i >= 0 {
+		if i := strings.Index(lhs, "."); i >= 0 {
 			// ghost of another package: <pkgname>.<ghost>
-			if p := env.importedPkg(gs.Name[:i]); p != nil {
-				gpkg, gname = p.Path(), gs.Name[i+1:]
+			if p := env.importedPkg(lhs[:i]); p != nil {
+				gpkg, gname = p.Path(), lhs[i+1:]
 				ge := *env
 				ge.pkg = p
 				genv = &ge
@@ -651,7 +656,22 @@ func (f *Frame) applyGhostSets(fc *FuncContract, env *SpecEnv, st *State) {
 			continue
 		}
 		t := genv.resolveType(gd.Type)
-		ups = append(ups, upd{g.ghostLoc(gpkg, gname, t), v.S})
+		loc := g.ghostLoc(gpkg, gname, t)
+		if idxText != "" {
+			ie, err := parseSpecExpr(idxText)
+			if err != nil {
+				g.resolutionFailure(f, fmt.Sprintf("ghostset %s: %v", gs.Name, err))
+				continue
+			}
+			iv, err := env.evalAny(ie)
+			if err != nil {
+				g.resolutionFailure(f, fmt.Sprintf("ghostset %s: %v", gs.Name, err))
+				continue
+			}
+			ups = append(ups, upd{loc, sto(g.load(env.cur, loc).S, iv.S, v.S)})
+			continue
+		}
+		ups = append(ups, upd{loc, v.S})
 	}
 	for _, u := range ups {
 		g.store(st, u.l, u.v)
